@@ -17,7 +17,31 @@ from fractions import Fraction
 
 from . import common, pure, heapdiff
 
-PROOFS = ["proofs/SampleProofs.v", "models/Sample.v", "proofs/HeapProofs.v", "lib/Heap.v"]
+PROOFS = ["proofs/SampleProofs.v", "models/Sample.v", "proofs/HeapProofs.v", "lib/Heap.v",
+          "models/SampleProb.v", "proofs/SampleProbProofs.v", "proofs/SampleProbPair.v", "proofs/SampleProbLink.v"]
+
+# The theorems of the second part of props/C20.v (distribution clause, ideal real-valued model)
+# are about the classical real numbers of Coq's standard library (Reals + Coquelicot).  Print
+# Assumptions names exactly these four standard-library axioms for them; they are allow-listed BY
+# NAME and PER THEOREM (every other theorem of C20 must stay "Closed under the global context");
+# the proof gate records the grant in the evidence (extra_allowed_axioms).
+REAL_ANALYSIS_BASE = [
+    "ClassicalDedekindReals.sig_forall_dec",   # limited principle of omniscience (construction of R)
+    "ClassicalDedekindReals.sig_not_dec",      # decidability of negated propositions in Type (construction of R)
+    "FunctionalExtensionality.functional_extensionality_dep",
+    "Classical_Prop.classic",                  # excluded middle (Coquelicot / Reals)
+]
+REAL_THEOREMS = [
+    "c20_key_lose_interval", "c20_key_lose_interval_bounds",
+    "c20_k1_probability_is_RInt", "c20_k1_probability", "c20_k1_prob_range",
+    "c20_k1_total_probability", "c20_k1_scale_invariant", "c20_k1_order_invariant",
+    "c20_k1_n2_indicator", "c20_k1_n2_indicator_swapped",
+    "c20_k1_indicator_integral", "c20_k1_indicator_is_indicator",
+    "c20_ares_key_order", "c20_gumbel_key_order",
+    "c20_k1_returns_winner", "c20_k1_returned_is_winner", "c20_k1_exactly_one_winner",
+    "c20_k2_probability", "c20_k2_indicator_integral", "c20_k2_indicator_is_indicator",
+    "c20_k2_marginal", "c20_k2_returns_top_pair",
+]
 REL = 1e-9
 
 
@@ -386,16 +410,25 @@ def run(chk):
     chk.trusted = common.BASE_TRUSTED + [
         "modelled: container/heap re-modelled from the Go 1.23 source (lib/Heap.v, checked every run against container/heap)",
         "modelled: math.Log / math/rand / float64 keys abstracted to their ORDER (model input = ranks of the reference keys recomputed by the harness from the replayed rand.Seed stream)",
-        "statistical: P(i) = w_i/sum(w) for sampleNum = 1 is a fixed-seed 6-sigma frequency TEST, not a proof",
+        "statistical: P(i) = w_i/sum(w) for sampleNum = 1 is, for the float64 IMPLEMENTATION, a fixed-seed 6-sigma frequency TEST, not a proof",
+        "modelled: the distribution clause is a THEOREM only about the ideal real-valued model (models/SampleProb.v: independent draws uniform on the "
+        "open unit interval, exact keys ln u / w in R, no ties): c20_k1_probability = w_i/sum(w) and companions, c20_k2_probability = w_i/W * w_j/(W-w_i) for the first two picks. Modelling assumption, not proved: the "
+        "probability of an event about independent uniform draws IS the iterated Riemann integral of its indicator over the unit cube "
+        "(u_i outermost, then u_j for sampleNum = 2; no measure theory underneath; the exchange of the integration order is proved for two items only). Not modelled: float64 "
+        "rounding of the keys / math.Log, math/rand (2^53-point grid, can return 0), ties",
+        "axioms: the theorems of the ideal model (" + ", ".join(REAL_THEOREMS) + ") depend on these standard-library axioms of the classical reals, "
+        "as printed by Print Assumptions: " + ", ".join(REAL_ANALYSIS_BASE) + "; all other C20 theorems are closed under the global context",
     ]
     chk.assumptions = ["1 <= sampleNum <= totalNum (the property's hypothesis); otherwise the call panics (c20_sample_panics_iff)",
                        "weights strictly positive and finite => every key is a float64 that is not NaN (totally ordered)",
-                       "rand.Seed(s) makes the global math/rand stream reproducible (checked by the harness on every case)"]
+                       "rand.Seed(s) makes the global math/rand stream reproducible (checked by the harness on every case)",
+                       "distribution theorems (c20_k1_*): draws independent and uniform on the open unit interval, real arithmetic exact; "
+                       "probability := iterated Riemann integral of the indicator of the event (modelling assumption, see trusted base)"]
     chk.cov["rule"] = ("cases = (seed, sampleNum, totalNum, weight vector); weight kinds: integers, 1e-3..1e-6, normalised probabilities, 1e-300, "
                        "subnormal, 1e300, max float, skewed over 600 orders of magnitude, equal; all (k,n) <= 8 (16 thorough) + random up to 64; "
                        "invalid (k,n); out-of-domain tie stream; non-trivial = returns normally with totalNum >= 3; distinct = distinct case line. "
                        "Extra streams: Heap.v vs container/heap; k=1 frequency test")
-    chk.run_proof_gate(PROOFS)
+    chk.run_proof_gate(PROOFS, extra_allowed={t: REAL_ANALYSIS_BASE for t in REAL_THEOREMS})
     binary = pure.build_pure(chk)
     if binary:
         try:
